@@ -113,6 +113,7 @@ type txFields struct {
 	roles []string
 	ref   *string
 	tags  []txTag
+	links []string // ids of entities of the second root store "groups", persisted with ctx.SetLinkedIds
 }
 
 // txTagsValue rebuilds the Go value (map[string]interface{} with nested maps and []interface{} lists) from
@@ -222,6 +223,9 @@ type txCase struct {
 	regsD        []txReg
 	ixD          [][]txIxVeto
 	txs          []txTx
+	// the listener registrations hand their additional change types over through ONE slice that is reused for all
+	// of them, has spare capacity and is overwritten afterwards (what a caller with a `common...` slice does)
+	sharedSlice bool
 }
 
 // ---------------------------------------------------------------- wire strings
@@ -371,6 +375,13 @@ func (p *txTokens) fields() txFields {
 			f.tags = append(f.tags, t)
 		}
 	}
+	if p.i < len(p.t) && p.t[p.i] == "K" {
+		p.next()
+		n := p.nat()
+		for i := 0; i < n; i++ {
+			f.links = append(f.links, p.str())
+		}
+	}
 	return f
 }
 
@@ -397,6 +408,13 @@ func (p *txTokens) step() txStep {
 		default:
 			panic("bad op")
 		}
+	case "lk":
+		s.op = p.next()
+		s.id = p.str()
+		n := p.nat()
+		for i := 0; i < n; i++ {
+			s.f.links = append(s.f.links, p.str())
+		}
 	case "fail", "fail1", "ac":
 		s.tag = p.nat()
 	case "ap":
@@ -414,6 +432,10 @@ func txParseCase(line string) *txCase {
 	c := &txCase{}
 	if p.next() != "E" {
 		panic("bad case")
+	}
+	if p.i < len(p.t) && p.t[p.i] == "S" {
+		p.next()
+		c.sharedSlice = true
 	}
 	n := p.nat()
 	for i := 0; i < n; i++ {
@@ -467,6 +489,7 @@ type txThing struct {
 	Roles []string
 	Ref   *string
 	Tags  map[string]interface{}
+	Links []string
 }
 
 func (e *txThing) GetId() string         { return e.Id }
@@ -477,6 +500,23 @@ type txExt struct {
 	txThing
 	Rank string
 }
+
+// entity of the second root store "groups" (link targets); its entities q1, q2 are created when the database is set
+// up and never touched by the cases
+type txGroup struct {
+	Id   string
+	Name string
+}
+
+func (e *txGroup) GetId() string         { return e.Id }
+func (e *txGroup) SetId(id string)       { e.Id = id }
+func (e *txGroup) GetEntityType() string { return "groups" }
+
+type txQStrategy struct{}
+
+func (txQStrategy) NewEntity() *txGroup                             { return new(txGroup) }
+func (txQStrategy) FillEntity(e *txGroup, b *boltz.TypedBucket)     { e.Name = b.GetStringOrError("name") }
+func (txQStrategy) PersistEntity(e *txGroup, ctx *boltz.PersistContext) { ctx.SetString("name", e.Name) }
 
 // entity of the second child store
 type txExt2 struct {
@@ -523,6 +563,7 @@ type txRun struct {
 	parent *boltz.BaseStore[*txThing]
 	child  *boltz.BaseStore[*txExt]
 	child2 *boltz.BaseStore[*txExt2]
+	groups *boltz.BaseStore[*txGroup]
 	cas    *txCase
 
 	mu       sync.Mutex
@@ -532,6 +573,7 @@ type txRun struct {
 	async    []string
 	ca       map[uint64][]string
 	bodyGoid uint64
+	shared   []boltz.EntityEventType
 	curRun   int // how often the transaction function of the running transaction has been started
 
 	// fault injection for the running operation
@@ -556,6 +598,7 @@ func (s *txPStrategy) FillEntity(e *txThing, b *boltz.TypedBucket) {
 	e.Ref = b.GetString("ref")
 	e.Roles = b.GetStringList("roles")
 	e.Tags = b.GetMap("tags")
+	e.Links = b.GetStringList("groups")
 	if n > 0 && s.r.fault == fmt.Sprintf("lP%d", n) {
 		b.SetError(errTxLoad)
 	}
@@ -568,6 +611,8 @@ func (s *txPStrategy) PersistEntity(e *txThing, ctx *boltz.PersistContext) {
 	ctx.SetStringList("roles", e.Roles)
 	// nothing is injected for the tags: what the typed-bucket setters make of the VALUE is the test
 	ctx.SetMap("tags", e.Tags)
+	// a link target that does not exist is a real failure of the link collection, nothing is injected
+	ctx.SetLinkedIds("groups", e.Links)
 	if s.r.fault == fmt.Sprintf("pP%d", n) {
 		ctx.Bucket.SetError(errTxPersist)
 	}
@@ -807,6 +852,13 @@ func txRegister[E boltz.Entity](r *txRun, store boltz.EntityStore[E], sc byte, r
 		if reg.listener {
 			first := txEventType(reg.types[0])
 			var rest []boltz.EntityEventType
+			if r.cas.sharedSlice {
+				// one backing array for the additional change types of every registration of the case, with spare capacity
+				if r.shared == nil {
+					r.shared = make([]boltz.EntityEventType, 0, 16)
+				}
+				rest = r.shared[:0]
+			}
 			for _, t := range reg.types[1:] {
 				rest = append(rest, txEventType(t))
 			}
@@ -884,6 +936,19 @@ func txOpen(c *txCase, dir string) *txRun {
 	symBack := r.parent.AddFkSetSymbol("backrefs", r.parent)
 	r.parent.AddNullableFkIndex(symRef, symBack)
 
+	r.groups = boltz.NewBaseStore(boltz.StoreDefinition[*txGroup]{
+		EntityType:      "groups",
+		EntityStrategy:  txQStrategy{},
+		BasePath:        []string{"u"},
+		EntityNotFoundF: func(id string) error { return &txNotFound{id: id} },
+	})
+	r.groups.InitImpl(r.groups)
+	r.groups.AddIdSymbol("id", ast.NodeTypeString)
+	symGroups := r.parent.AddFkSetSymbol("groups", r.groups)
+	symMembers := r.groups.AddFkSetSymbol("members", r.parent)
+	r.parent.AddLinkCollection(symGroups, symMembers)
+	r.groups.AddLinkCollection(symMembers, symGroups)
+
 	r.child = boltz.NewBaseStore(boltz.StoreDefinition[*txExt]{
 		EntityStrategy: &txCStrategy{r: r},
 		BasePath:       []string{"ext"},
@@ -948,6 +1013,15 @@ func txOpen(c *txCase, dir string) *txRun {
 		r.parent.InitializeIndexes(ctx.Tx(), h)
 		r.child.InitializeIndexes(ctx.Tx(), h)
 		r.child2.InitializeIndexes(ctx.Tx(), h)
+		r.groups.InitializeIndexes(ctx.Tx(), h)
+		if h.err != nil {
+			return h.err
+		}
+		for _, q := range []string{"q1", "q2"} {
+			if err := r.groups.Create(ctx, &txGroup{Id: q, Name: "g_" + q}); err != nil {
+				return err
+			}
+		}
 		return h.err
 	})
 	if err != nil {
@@ -964,6 +1038,13 @@ func txOpen(c *txCase, dir string) *txRun {
 	txRegister[*txExt2](r, r.child2, 'D', c.regsD)
 	for i, vs := range c.ixD {
 		r.child2.AddConstraint(&txIxConstraint{r: r, store: 'D', idx: i, vetoes: vs})
+	}
+	if c.sharedSlice && r.shared != nil {
+		// the caller goes on using its slice: no adapter may observe that
+		r.shared = r.shared[:cap(r.shared)]
+		for i := range r.shared {
+			r.shared[i] = []boltz.EntityEventType{boltz.EntityDeletedAsync, boltz.EntityCreated, boltz.EntityUpdatedAsync}[i%3]
+		}
 	}
 	for i := 0; i < c.txl; i++ {
 		i := i
@@ -1050,6 +1131,8 @@ func txErrKind(err error) string {
 		return "err:null"
 	case strings.Contains(msg, "unsupported type"):
 		return "err:unsupported"
+	case strings.Contains(msg, "things not found with id"):
+		return "err:notfound"
 	case strings.Contains(msg, "line:") && strings.Contains(msg, "column:"):
 		return "err:parse"
 	}
@@ -1066,7 +1149,8 @@ func (r *txRun) runOp(ctx boltz.MutateContext, s txStep) error {
 	r.fillP, r.fillC, r.persP, r.persC = 0, 0, 0, 0
 	defer func() { r.fault = "-" }()
 	thing := func() txThing {
-		return txThing{Id: s.id, Name: s.f.name, Roles: append([]string(nil), s.f.roles...), Ref: s.f.ref, Tags: txTagsValue(s.f.tags)}
+		return txThing{Id: s.id, Name: s.f.name, Roles: append([]string(nil), s.f.roles...), Ref: s.f.ref, Tags: txTagsValue(s.f.tags),
+			Links: append([]string(nil), s.f.links...)}
 	}
 	switch s.op {
 	case "cr":
@@ -1127,6 +1211,21 @@ func (r *txRun) runSteps(ctx boltz.MutateContext, steps []txStep, i int) (int, e
 			}
 		case "fail":
 			return i, &txCallerErr{tag: s.tag}
+		case "lk":
+			// a link operation of the transaction function itself; its error is handed on
+			coll := r.parent.GetLinkCollection("groups")
+			var err error
+			switch s.op {
+			case "a":
+				err = coll.AddLinks(ctx.Tx(), s.id, s.f.links...)
+			case "r":
+				err = coll.RemoveLinks(ctx.Tx(), s.id, s.f.links...)
+			default:
+				err = coll.SetLinks(ctx.Tx(), s.id, append([]string(nil), s.f.links...))
+			}
+			if err != nil {
+				return i, err
+			}
 		case "fail1":
 			// fails the first time the transaction function executes it; the flag is the run counter of the
 			// function, kept outside the database
